@@ -497,7 +497,8 @@ def unhashable_key_programs():
     composition of depth <= 3 of the wrappers Tuple / Call arguments / Ref id around each base"""
     import itertools
     base = [("list", b"]"), ("list1", b"]K\x01a"), ("dict", b"}"), ("dict1", b"}K\x01K\x02s"),
-            ("bytearray", b"\x96" + _st.pack("<Q", 2) + b"ab")]
+            ("bytearray", b"\x96" + _st.pack("<Q", 2) + b"ab"),
+            ("cyclic-dict", b"}q\x09K\x01h\x09s"), ("dict-in-own-list", b"}q\x08K\x01]h\x08as")]
     wrap = {"tuple": lambda x: x + b"\x85", "tuple2": lambda x: b"K\x01" + x + b"\x86",
             "call": lambda x: b"cm\nC\n" + x + b"\x85R", "ref": lambda x: x + b"Q"}
     out = []
@@ -512,7 +513,7 @@ def unhashable_key_programs():
         out.append((name + "@0", prog))
         for depth in (1, 2, 3):
             for ws in itertools.product(wrap, repeat=depth):
-                if depth == 3 and name not in ("list", "bytearray"):
+                if depth == 3 and name not in ("list", "bytearray", "cyclic-dict"):
                     continue
                 x = prog
                 for w in ws:
